@@ -1215,26 +1215,37 @@ func runRollover(cs Case) (outs [][]tsmkit.RawKey, fnds []finding, extra string)
 	return outs, fnds, "blocks per output file: " + strings.Join(per, ",")
 }
 
-func rolloverCases() []Case {
+// rolloverCases: the decode-path variant (tombstone) is quadratic in the number of blocks inside the
+// repo's merge loop (~10 s per case): the quick tier keeps only the two boundary sizes for it, and
+// these heavy cases come last (consecutive indexes, so one per shard).
+func rolloverCases(quick bool) []Case {
 	var out []Case
-	for _, n := range []int{65534, 65535, 65536, 65537, 70000} {
+	sizes := []int{65534, 65535, 65536, 65537, 70000}
+	for _, n := range sizes {
 		for _, second := range []bool{false, true} {
 			out = append(out,
 				Case{Kind: "rollover", NBlocks: n, SecondKey: second, Fast: true, PPB: 1000},
 				Case{Kind: "rollover", NBlocks: n, SecondKey: second, Fast: false, PPB: 1},
-				Case{Kind: "rollover", NBlocks: n, SecondKey: second, Fast: false, PPB: 1, Tomb11: true},
 			)
+		}
+	}
+	for _, n := range sizes {
+		if quick && n != 65535 && n != 65536 {
+			continue
+		}
+		for _, second := range []bool{false, true} {
+			out = append(out, Case{Kind: "rollover", NBlocks: n, SecondKey: second, Fast: false, PPB: 1, Tomb11: true})
 		}
 	}
 	return out
 }
 
-func exploreRollover(c *vlib.Ctx, idx *int64) bool {
+func exploreRollover(c *vlib.Ctx, idx *int64, heavyOK func() bool) bool {
 	t0 := time.Now()
 	defer func() { c.Logf("[R] finished after %s", time.Since(t0)) }()
 	tl := &tally{oc: map[ocKey]int64{}}
 	defer tl.flush(c)
-	for _, cs := range rolloverCases() {
+	for _, cs := range rolloverCases(c.Quick()) {
 		*idx++
 		if !c.Mine(*idx) {
 			continue
@@ -1242,6 +1253,10 @@ func exploreRollover(c *vlib.Ctx, idx *int64) bool {
 		if c.Expired() {
 			c.Cap("budget expired during roll-over cases")
 			return false
+		}
+		if cs.Tomb11 && !heavyOK() {
+			c.Cap("decode-path roll-over cases skipped: too little budget left for a ~10 s case")
+			continue
 		}
 		var outs [][]tsmkit.RawKey
 		var fnds []finding
@@ -1334,7 +1349,7 @@ func TestCheck(t *testing.T) {
 			"[K] 'two-keys': a Float and an Integer key with independent layouts (either may be absent) x tombstone set in {none, whole keys, [1,1], [2,3]}; " +
 			"every ordered tuple of files x {CompactFull, CompactFast} x pointsPerBlock in {1,2,3,1000} (the optimize strategy is CompactFull with a non-default pointsPerBlock) through the real Compactor; " +
 			"[C] cache: 1-2 WriteMulti batches, each giving a Float and an Integer key any subset of {1..N} (not both empty) in ascending or descending order, snapshotted as the engine does and written with Compactor.WriteSnapshot, plus NewCacheKeyIterator with block size 1,2,3; " +
-			"[R] roll-over at the real 65535 blocks-per-key limit: two files with n in {65534,65535,65536,65537,70000} one-point blocks of one key in total, with/without a following second key, x {CompactFast, CompactFull ppb=1, CompactFull ppb=1 with a tombstone forcing the decode path}. " +
+			"[R] roll-over at the real 65535 blocks-per-key limit: two files with n in {65534,65535,65536,65537,70000} one-point blocks of one key in total, with/without a following second key, x {CompactFast, CompactFull ppb=1, CompactFull ppb=1 with a tombstone forcing the decode path (quick: n in {65535,65536} only for this last variant)}. " +
 			"QUICK: [S] pairs N=2 via FileStore.Open in one directory (outputs also cross-read with TSMReader BlockIterator+ReadAll for ppb=2); [S] pairs N=4 with a tombstone set on at most one file; [K] pairs N=2; [C] N=3; [R]. " +
 			"THOROUGH: [S] pairs N=3 via FileStore.Open; [S] pairs N=4 and N=5 with all 6x6 tombstone combinations; [S] triples N=3; [S] triples N=4 without tombstones; [K] pairs N=3 with tombstones on <=1 file; [C] N=4; [R]. Except where noted inputs are real TSMReaders opened once per variant and handed to a FileStore in path order. " +
 			"One evaluation = one compaction/snapshot run, its outputs parsed from the file bytes and compared with the newest-file-wins merge minus tombstones; non-trivial = runs whose inputs hold overlapping blocks of one key in two files or a partially tombstoned block (distinct by construction)",
@@ -1365,19 +1380,25 @@ func TestCheck(t *testing.T) {
 				f := os.Getenv("VERIF_C04_PHASES")
 				return f == "" || strings.Contains(f, ph)
 			}
+			heavyOK := func() bool { // a heavy roll-over case is only started in the first 40% of the default budget
+				if c.Quick() {
+					return time.Since(t0) < 18*time.Second
+				}
+				return time.Since(t0) < 320*time.Second
+			}
 			if c.Quick() {
-				_ = (!on("R") || exploreRollover(c, &idx)) &&
-					(!on("O") || exploreCompactions(c, scratch, &idx, viaOpen, 2, spaceSameLayout(2), -1, "[S] pairs N=2 via FileStore.Open")) &&
+				_ = (!on("O") || exploreCompactions(c, scratch, &idx, viaOpen, 2, spaceSameLayout(2), -1, "[S] pairs N=2 via FileStore.Open")) &&
 					(!on("K") || exploreCompactions(c, scratch, &idx, viaPooled, 2, spaceTwoKeys(2), -1, "[K] pairs N=2")) &&
 					(!on("C") || exploreCache(c, scratch, &idx, 3, "[C] N=3")) &&
-					(!on("S") || exploreCompactions(c, scratch, &idx, viaPooled, 2, spaceSameLayout(4), 1, "[S] pairs N=4 (tombstones on <=1 file)"))
+					(!on("S") || exploreCompactions(c, scratch, &idx, viaPooled, 2, spaceSameLayout(4), 1, "[S] pairs N=4 (tombstones on <=1 file)")) &&
+					(!on("R") || exploreRollover(c, &idx, heavyOK))
 				return
 			}
-			_ = (!on("R") || exploreRollover(c, &idx)) &&
-				(!on("O") || exploreCompactions(c, scratch, &idx, viaOpen, 2, spaceSameLayout(3), -1, "[S] pairs N=3 via FileStore.Open")) &&
+			_ = (!on("O") || exploreCompactions(c, scratch, &idx, viaOpen, 2, spaceSameLayout(3), -1, "[S] pairs N=3 via FileStore.Open")) &&
 				(!on("C") || exploreCache(c, scratch, &idx, 4, "[C] N=4")) &&
 				(!on("K") || exploreCompactions(c, scratch, &idx, viaPooled, 2, spaceTwoKeys(3), 1, "[K] pairs N=3 (tombstones on <=1 file)")) &&
 				(!on("S") || exploreCompactions(c, scratch, &idx, viaPooled, 2, spaceSameLayout(4), -1, "[S] pairs N=4")) &&
+				(!on("R") || exploreRollover(c, &idx, heavyOK)) &&
 				(!on("S") || exploreCompactions(c, scratch, &idx, viaPooled, 2, spaceSameLayout(5), -1, "[S] pairs N=5")) &&
 				(!on("S") || exploreCompactions(c, scratch, &idx, viaPooled, 3, spaceSameLayout(3), -1, "[S] triples N=3")) &&
 				(!on("S") || exploreCompactions(c, scratch, &idx, viaPooled, 3, spaceSameLayout(4), 0, "[S] triples N=4 without tombstones"))
